@@ -123,6 +123,10 @@ fn normalise_ip(ip: IpAddr) -> IpAddr {
 }
 
 fn record(r: &RecSel) -> discv5::Enr {
+    // one record in 16 is signed with an Ed25519 key (a valid record of another identity scheme)
+    if r.key % 16 == 15 {
+        return crate::engines::wire::ed_record((r.key / 16) as u8 % 8);
+    }
     keys::padded_record(r.key as u32 % 64, r.seq.max(1), r.size.max(60))
 }
 
@@ -627,7 +631,7 @@ impl Property for C06 {
         run_case(case)
     }
     fn rule() -> String {
-        "three generators: (1) structured messages of the six kinds (ids of 0..8 bytes incl. leading zeros / 0x00 / 0x7f / 0x80, u64 fields with boundary bias, 0..63 distances in 0..=256, PONG ip in {v4, v6, v4-mapped v6, v4-compatible v6 incl. ::}, ports 1..65535, NODES with 0..15 signed pool records of 60..300 bytes, TALK blobs of 0..1200 bytes incl. the 55/56-byte RLP boundary): encode byte-equal to the reference RLP layout, decode(encode(m)) = m (mapped/compatible addresses expected as IPv4, by design), decode-encode idempotent; (2) RLP-structure mutations of valid messages (trailing/missing bytes, outer length +-k, add/remove/wrap an element, 9..16-byte id, distance > 256, port 0 / > 65535, ip length in {0,1,3,5,15,17}, bit flips / truncation inside a record, leading-zero integers, record-list length +-k, record outside the list, type byte, non-canonical single byte): crate decoder compared with a reference decoder; crate-accepts/reference-rejects is a violation when the reason is on the statement's must-reject list; crate-rejects/reference-accepts is a violation; (3) arbitrary bytes: totality + differential. Non-trivial: (1) NODES with >=2 records or a boundary field value; (2),(3) the outer RLP header is a list with consistent length (reaches per-type logic).".into()
+        "three generators: (1) structured messages of the six kinds (ids of 0..8 bytes incl. leading zeros / 0x00 / 0x7f / 0x80, u64 fields with boundary bias, 0..63 distances in 0..=256, PONG ip in {v4, v6, v4-mapped v6, v4-compatible v6 incl. ::}, ports 1..65535, NODES with 0..15 signed pool records of 60..300 bytes (one in 16 an Ed25519-signed record), TALK blobs of 0..1200 bytes incl. the 55/56-byte RLP boundary): encode byte-equal to the reference RLP layout, decode(encode(m)) = m (mapped/compatible addresses expected as IPv4, by design), decode-encode idempotent; (2) RLP-structure mutations of valid messages (trailing/missing bytes, outer length +-k, add/remove/wrap an element, 9..16-byte id, distance > 256, port 0 / > 65535, ip length in {0,1,3,5,15,17}, bit flips / truncation inside a record, leading-zero integers, record-list length +-k, record outside the list, type byte, non-canonical single byte): crate decoder compared with a reference decoder; crate-accepts/reference-rejects is a violation when the reason is on the statement's must-reject list; crate-rejects/reference-accepts is a violation; (3) arbitrary bytes: totality + differential. Non-trivial: (1) NODES with >=2 records or a boundary field value; (2),(3) the outer RLP header is a list with consistent length (reaches per-type logic).".into()
     }
     fn assumptions() -> Vec<String> {
         vec![
